@@ -30,7 +30,7 @@ func laneText(raw json.RawMessage) ([]vf.Failure, error) {
 	return fails, nil
 }
 
-var lanes = map[string]vf.LaneFunc{"generated": laneText, "corpus": laneText, "strings": laneText}
+var lanes = map[string]vf.LaneFunc{"fuzz": laneText, "generated": laneText, "corpus": laneText, "strings": laneText}
 
 func TestReplay(t *testing.T) {
 	if !vf.RunReplayMode(t, prop, lanes) {
@@ -173,5 +173,45 @@ func TestCorpus(t *testing.T) {
 		}
 		r.Eval(true, vf.Hash(text), "accepted")
 		r.JudgeNoFatal(textCase{text}, fails)
+	}
+}
+
+// FuzzFmt: coverage-guided texts. Inputs the parser rejects are outside the
+// quantifier (only accepted sources are formatted) and pass trivially.
+func FuzzFmt(f *testing.F) {
+	for _, text := range corpusFiles() {
+		f.Add(text)
+	}
+	f.Add("a = \"x\\\ny\"\n")
+	f.Add("block a.b:q // c\n  | desc\n\n\n/* c */ x = [1, [2, \"s\"]] // t\n} y = /a\\/b/\n")
+	known := vf.KnownOpen(prop)
+	f.Fuzz(func(t *testing.T, text string) {
+		if len(text) > 1<<13 {
+			return
+		}
+		fails, _ := checkFmt(text)
+		for _, fl := range fails {
+			if !known[fl.Key] {
+				t.Fatalf("c09 fuzz: [%s] %s", fl.Key, fl.Detail)
+			}
+		}
+	})
+}
+
+// TestFuzzInput pushes crashers found by FuzzFmt through the normal verdict path.
+func TestFuzzInput(t *testing.T) {
+	r := vf.Start(t, prop, "fuzz")
+	for _, p := range vf.FuzzInputs() {
+		vals, err := vf.ReadFuzzInput(p)
+		if err != nil || len(vals) != 1 {
+			r.Note("unreadable fuzz input %s: %v", p, err)
+			continue
+		}
+		text := vals[0].(string)
+		c := textCase{text}
+		r.Eval(true, vf.Hash(text), "fuzz-crasher")
+		r.Journal(c)
+		fails, _ := checkFmt(text)
+		r.JudgeNoFatal(c, fails)
 	}
 }
